@@ -402,6 +402,20 @@ impl AmoTarget {
         .unwrap()
     }
 }
+/// C15, implementation -> spec: the real forbid-clause stream for a list of sizes
+pub fn amo_dump(args: &[String]) {
+    use std::io::Write;
+    let ns: Vec<u32> = crate::get_arg(args, "--ns").expect("--ns").split(',').map(|s| s.parse().unwrap()).collect();
+    let out = crate::get_arg(args, "--out").expect("--out");
+    let mut f = std::io::BufWriter::new(std::fs::File::create(out).unwrap());
+    for n in ns {
+        let t = AmoTarget { n, readd: false, memo: Default::default() };
+        let mut o = t.obs_fresh();
+        o["ev"] = json!("amo");
+        writeln!(f, "{o}").unwrap();
+    }
+}
+
 impl Target for AmoTarget {
     fn reset(&mut self) -> Value {
         self.n = 0;
